@@ -15,10 +15,11 @@ RULE = ("P1: for every integer series of length 3..LMax (quick 5, thorough 7) ov
         "persistent coefficients (root 255/256, damped cycle of modulus 0.998) = forecasting k steps, appending them to"
         " the history and forecasting the rest, for k around 256 and elsewhere; P3 (observations, validated by TLC "
         "Trace_TimeSeries): simulated stationary AR(1..3) series of length 60..500 at offsets 0 / 50 / 1e6, fitted with"
-        " orders 1..8: Yule-Walker residual, intercept = mean, shift equivariance of 20-step forecasts, 1000-step "
-        "forecast within 2^-20 of the mean; five clean trends of 3500..9000 points (lag-one autocorrelation beyond "
-        "0.999), orders 1..3: Yule-Walker residual within the same bound. Case class = (function, offset class / order,"
-        " fresh or refit).")
+        " orders 1..8: Yule-Walker residual, intercept = mean, a fitted object asked about another history of the "
+        "training length (reversed; shifted) answers like an object that merely holds the same coefficients, shift "
+        "equivariance of 20-step forecasts, 1000-step forecast within 2^-20 of the mean; five clean trends of "
+        "3500..9000 points (lag-one autocorrelation beyond 0.999), orders 1..3: Yule-Walker residual within the same "
+        "bound. Case class = (function, offset class / order, fresh or refit).")
 ASSUMPTIONS = ["exact oracle for orders 1 and 2 on short integer series; orders 3..8 only through the residual observation whose autocorrelations the harness computes from the definition",
                "predict_one (a raw dot-product helper) is not judged: the property speaks about forecasts"]
 EXHAUSTIVE = True
